@@ -15,7 +15,11 @@ PUMP_TYPES = ["P1", "P2", "P3"]
 
 
 def fl(lo, hi):
-    return st.floats(min_value=lo, max_value=hi, allow_nan=False, allow_infinity=False, width=64)
+    s = st.floats(min_value=lo, max_value=hi, allow_nan=False, allow_infinity=False, width=64, allow_subnormal=False)
+    if lo <= 0.0 <= hi:
+        # no physically meaningless magnitudes such as 2.2e-308 (which, besides, the JSON decoder cannot read back)
+        s = s.map(lambda x: 0.0 if abs(x) < 1e-9 else x)
+    return s
 
 
 @st.composite
